@@ -197,7 +197,10 @@ def generate(unit_dir, mustfail=False, mutate=None, variant=None, template='unit
             if cur:
                 sections.append((cur, buf))
             i += 1  # skip end
-            for hdr, body in sections:
+            # a section `name@<variant>` replaces section `name` in that scenario variant only
+            plain_secs = [(h, b) for h, b in sections if '@' not in h[0]]
+            var_secs = [([h[0].split('@')[0]] + h[1:], b) for h, b in sections if '@' in h[0] and h[0].split('@')[1] == (variant or 'default')]
+            for hdr, body in plain_secs + var_secs:
                 k = hdr[0]
                 txt = '\n'.join(body)
                 if k == 'sig':
